@@ -280,9 +280,9 @@ SPECS = {
                  'rounds of [0-4 priming calls drawn in any order: wif / wif_key / wif_private / as_dict(include_private) / info / '
                  'deepcopy / pickle / subkey / public_master(as_private) / ...] followed by the public views (public(), '
                  'public_master(), wif_public(), Wallet.wif(is_private=False), WalletKey.public(), default as_dict / as_json / repr / '
-                 'str / info, watch-only wallet from the export); storage arm (field encryption on): one run = a wallet history '
-                 '(keys, fund, update, send, reopen, crash) with scans of the database file and journal at commit points, after '
-                 'crashes and reopening; arm storage_pw is the storage arm with the key given as DB_FIELD_ENCRYPTION_PASSWORD. Non-trivial: >= 4 operations and >= 2 successful; distinct = distinct event-log digests.'),
+                 'str / info, watch-only wallet from the export; the address object of the private key and a transaction signed with it: default dictionary, JSON, repr, printed form; the wallet\'s listings); storage arm (field encryption on): one run = a wallet history '
+                 '(keys, fund, update, send, reopen, crash) with scans of the database file, its journal and the library\'s log file (shipped logging defaults) at commit points, after '
+                 'crashes and reopening, and of the default text forms of the transactions it creates; arm storage_pw is the storage arm with the key given as DB_FIELD_ENCRYPTION_PASSWORD. Non-trivial: >= 4 operations and >= 2 successful; distinct = distinct event-log digests.'),
         'state_measure': 'n/a (digests only)',
         'components': {'real': WALLET_REAL + ['bitcoinlib.db EncryptedBinary / EncryptedString (pycryptodome AES)'],
                        'stub': WALLET_STUB},
